@@ -132,6 +132,11 @@ func LonIndex(lon float64, h int64, bandDeg float64) IndexResult {
 	lower := new(big.Rat).Sub(pos, new(big.Rat).SetInt(idx)) // in [0,1)
 	upper := new(big.Rat).Sub(big.NewRat(1, 1), lower)
 	maxIdx := new(big.Int).Sub(n, big.NewInt(1)).Int64()
+	if lower.Sign() == 0 {
+		// exactly on a tile boundary: lon+180, the division by 360 and the scaling by 2^h are all exact in float64 then
+		// (k*360/2^h, k/2^h and k are representable), so floor puts the point into the eastern tile - no band
+		return res
+	}
 	if lower.Cmp(band) <= 0 && res.Index > 0 {
 		res.NearEdge, res.Alt = true, res.Index-1
 	} else if upper.Cmp(band) <= 0 && res.Index < maxIdx {
